@@ -684,6 +684,8 @@ udp_recv_data(udp_ep *ep, udp_sp_msg *dreq, size_t len, const nng_sockaddr *sa)
 			if (p->npipe != NULL) {
 				nni_pipe_bump_error(p->npipe, NNG_ENOMEM);
 			}
+			// we lose this datagram, but not the buffer's size
+			nni_msg_realloc(ep->rx_payload, ep->rcvmax);
 			return;
 		}
 		nni_msg_set_address(msg, sa);
@@ -696,6 +698,7 @@ udp_recv_data(udp_ep *ep, udp_sp_msg *dreq, size_t len, const nng_sockaddr *sa)
 		msg = ep->rx_payload;
 		if (nng_msg_alloc(&ep->rx_payload, ep->rcvmax) != 0) {
 			ep->rx_payload = msg; // make sure we put it back
+			nni_msg_realloc(ep->rx_payload, ep->rcvmax);
 			if (p->npipe != NULL) {
 				nni_pipe_bump_error(p->npipe, NNG_ENOMEM);
 			}
@@ -1095,7 +1098,7 @@ udp_ep_close(void *arg)
 	udp_ep   *ep = arg;
 	udp_pipe *p;
 	nni_aio  *aio;
-	uint32_t  cursor = 0;
+	uint32_t  cursor;
 	uint64_t  key;
 
 	nni_mtx_lock(&ep->mtx);
